@@ -121,7 +121,7 @@ class Watch:
         while k > 0:
             k -= 1
             t = self.src[k]
-            if not t.strip() or t.strip().startswith("#"):
+            if not t.strip() or t.strip().startswith(("#", ")", "]", "}")):
                 continue
             ik = len(t) - len(t.lstrip())
             if ik < ind:
@@ -141,7 +141,7 @@ SEP_RULES = [
     ("not is_ppt_state", "ppt-reject"),
     ("prod_dim <= 6", "ppt-sufficient"),
     ("realignment(state - np.kron", "zhang"),
-    ("realignment(state, dim)) > 1", "realignment"),
+    ("realignment(state, dim))", "realignment"),
     ("lam[0] - lam[2 * max_dim - 2]", "2xn-spectrum"),
     ("matrix_rank(B - B.conj().T)", "2xn-hankel"),
     ("X_2n_ppt_check) and", "2xn-homothetic"),
@@ -177,6 +177,8 @@ def label(w: Watch, rules, fallback):
     for key, name in rules:
         if key in win:
             return name
+    if win.strip() != txt:  # governed by a condition that no rule recognises: never fold it into a named branch
+        return "unrecognised:" + " ".join(win.split())[:70]
     return fallback(txt)
 
 
@@ -562,11 +564,39 @@ def sep_dim_arg(form, dA, dB):
     return {"list": [dA, dB], "none": None, "int": int(dA)}[form]
 
 
+def early_criteria(rho, dA, dB):
+    """sufficient criteria of the cascade that hold BY A MARGIN for this state, evaluated independently of toqito
+    (exact Gurvits-Barnum inequality; operator Schmidt rank <= 2; Johnston's 2xn spectrum condition).  A state for which
+    one of them holds must be accepted before the late stages are reached."""
+    rho = np.asarray(rho, dtype=complex)
+    D = dA * dB
+    out = []
+    X = DM.exact_float(rho)
+    t = X.trace_re()
+    F = sum(Fraction(int(x) * int(x), 1 << (2 * X.e)) for x in list(X.re.reshape(-1)) + list(X.im.reshape(-1)))
+    if t > 0 and (D - 1) * F <= t * t * (1 - Fraction(1, 10**9)):
+        out.append("ball")
+    R = rho.reshape(dA, dB, dA, dB).transpose(0, 2, 1, 3).reshape(dA * dA, dB * dB)
+    sv = np.linalg.svd(R, compute_uv=False)
+    if len(sv) < 3 or sv[2] < 1e-13 * sv[0]:
+        out.append("op-schmidt-rank")
+    if min(dA, dB) == 2:
+        n = max(dA, dB)
+        lam = np.sort(np.linalg.eigvalsh(herm(rho) / float(t)))[::-1]
+        if (lam[0] - lam[2 * n - 2]) ** 2 <= 4 * lam[2 * n - 3] * lam[2 * n - 1] - 1e-9:
+            out.append("2xn-spectrum")
+    return out
+
+
 def _sep_violation(res, what, inst, form, out, branch, exc, extra=None):
     info = {"function": "is_separable", "args": {"dA": inst["dA"], "dB": inst["dB"], "dim_form": form, "family": inst["family"], "k": inst.get("k"), "meta": inst.get("meta"),
                                                   "variant": inst.get("variant", "base"), "rho": inst["rho"]},
             "impl": out, "branch": branch, "exception": exc, "separable_by_construction": bool(inst.get("sep")), "dA": inst["dA"], "dB": inst["dB"]}
     info.update(extra or {})
+    if inst.get("sep"):
+        info["early_criteria_hold"] = early_criteria(inst["rho"], inst["dA"], inst["dB"])
+        if info["early_criteria_hold"]:
+            what += f" although the sufficient criteria {info['early_criteria_hold']} hold by a margin"
     res.violation(what, info)
 
 
@@ -751,7 +781,7 @@ def install_matchers(ctx):
     ctx.matchers["c15-symext-sdp-constant-false"] = lambda info: (
         info.get("function") == "has_symmetric_extension" and info.get("separable_by_construction") is True and info.get("branch") == "sdp" and info.get("impl") is False)
     ctx.matchers["c15-is-separable-late-stage"] = lambda info: (
-        info.get("function") == "is_separable" and info.get("separable_by_construction") is True
+        info.get("function") == "is_separable" and info.get("separable_by_construction") is True and info.get("early_criteria_hold") == []
         and ((info.get("impl") is False and info.get("branch") == "symext-final-false") or (info.get("branch") == "breuer-hall" and exc_is(info, "TypeError"))))
 
 # ------------------------------------------------------------------------------------------------
